@@ -1,5 +1,5 @@
 (* Types that generated files (Gen/*.v) refer to. *)
-From Coq Require Import NArith.
+From Coq Require Import NArith String.
 
 Inductive cmp := Gt_ | Ge_ | Lt_ | Le_ | Eq_ | Ne_.
 
@@ -16,3 +16,13 @@ Definition cmp_holds (c : cmp) (a b : N) : bool :=
 
 (* shape of the regex in valid_name: "^.*[class].*$" or "[class]" *)
 Inductive rx_shape := AnchoredLine | Plain.
+
+(* how an asl_choice_* handler is written (state_engine.py choose) *)
+Inductive cmp_type := TBool | TStr.
+Inductive choice_kind :=
+| KCmp (op : cmp) (t : cmp_type)      (* next_if(variable, operator.op, value, t) *)
+| KCmpLower (op : cmp)                (* next_if(variable.lower(), op, value.lower(), str) *)
+| KNum (op : cmp)                     (* next_if_numeric(variable, op, value) *)
+| KTs (op : cmp)                      (* next_if_timestamp(variable, op, value) *)
+| KGuard (k : choice_kind)            (* if not path_match_failed: <k> *)
+| KSpecial (src_hash : String.string). (* hand-modelled handler, pinned by the digest of its AST *)
